@@ -68,11 +68,40 @@ def synthetic_remesh(ctx, res):
                         '(%+.2e relative) with zero nucleation' % ((m0b - m0) / m0), case, m0b, m0)
 
 
+def synthetic_multiphase(ctx, res):
+    """reported statistics vs moments, per phase, on synthetic multi-phase / multi-element states (empty and populated phases in
+    every order) — the same generator as C01"""
+    import importlib
+    c01 = importlib.import_module('corr.C01')
+    for _ in range(ctx.n(150, 3000)):
+        rec = c01.synth_record(ctx.rng)
+        P = len(rec['x'])
+        res.case(('synthetic-multiphase', rec['tag'], tuple(np.round(rec['dens'], 3))), bool(np.any(rec['dens'] >= rec['minDens'])))
+        res.count('synthetic-multiphase:%d-phases' % P)
+        for p in range(P):
+            N, R = rec['x'][p], rec['size'][p]
+            m0 = math.fsum(N); m1 = math.fsum(float(a) * float(b) for a, b in zip(N, R)); m3 = math.fsum(float(a) * float(b) ** 3 for a, b in zip(N, R))
+            case = dict(kind='_calcMassBalance on a synthetic state', tag=rec['tag'], phase=p, phases=P, dens=rec['dens'].tolist(), Ravg=rec['Ravg'].tolist(),
+                        volFrac=rec['volFrac'].tolist(), x=[a.tolist() for a in rec['x']], size=[a.tolist() for a in rec['size']])
+            if not close(rec['dens'][p], m0, 1e-9):
+                res.violate('density-not-M0', 'recorded density is not the zeroth moment', case, float(rec['dens'][p]), m0)
+            if m0 >= rec['minDens']:
+                if not close(rec['Ravg'][p], m1 / m0, 1e-9):
+                    res.violate('ravg-not-M1/M0', 'recorded mean radius of a populated phase is not M1/M0', case, float(rec['Ravg'][p]), m1 / m0)
+                c = rec['volRatio'][p] * rec['volumeFactor'][p]
+                want = 1.0 if rec['prevVolFrac'][p] == 1 else min(c * m3, 1.0)
+                if not close(rec['volFrac'][p], want, 1e-9):
+                    res.violate('volfrac-not-scaled-M3', 'recorded volume fraction is not min(c*M3,1)', case, float(rec['volFrac'][p]), want)
+            elif rec['Ravg'][p] != 0 or rec['volFrac'][p] != 0:
+                res.violate('empty-phase-statistics', 'phase below the density floor reports non-zero radius / fraction', case)
+
+
 def corr(ctx, oracle_only=False):
     res = Result()
     res.rule = ('every accepted step of real Al-Zr (and Ni-Cr-Al, thorough) runs, Euler and RK4, incl. a grid configured to extend and re-mesh, '
                 'plus synthetic re-mesh operations; non-trivial = populated distribution with non-zero growth; distinct = (run, step)')
     synthetic_remesh(ctx, res)
+    synthetic_multiphase(ctx, res)
     lines, refs = [], []
     for tag, model, log, solver in runs(ctx):
         pd = model.pData
